@@ -10,7 +10,9 @@ import (
 	"fmt"
 	"os"
 	"os/exec"
+	"runtime"
 	"sort"
+	"sync"
 	"time"
 )
 
@@ -97,39 +99,63 @@ func (c *Ctx) Lean(ops []J) []J {
 	if len(ops) == 0 {
 		return nil
 	}
-	var in bytes.Buffer
-	for _, op := range ops {
-		b, err := json.Marshal(op)
-		if err != nil {
-			panic(err)
+	// the driver answers one line per op and keeps no state between ops, so a batch is split over several driver processes
+	shards := 1
+	if len(ops) >= 400 {
+		shards = runtime.NumCPU()
+		if shards > 12 {
+			shards = 12
 		}
-		in.Write(b)
-		in.WriteByte('\n')
-	}
-	cmd := exec.Command(c.Driver)
-	cmd.Stdin = &in
-	var out bytes.Buffer
-	cmd.Stdout = &out
-	cmd.Stderr = os.Stderr
-	if err := cmd.Run(); err != nil {
-		fmt.Fprintf(os.Stderr, "driver failed: %v\n", err)
-		os.Exit(3)
-	}
-	res := make([]J, 0, len(ops))
-	sc := bufio.NewScanner(&out)
-	sc.Buffer(make([]byte, 1<<20), 1<<28)
-	for sc.Scan() {
-		var j J
-		if err := json.Unmarshal(sc.Bytes(), &j); err != nil {
-			fmt.Fprintf(os.Stderr, "driver output not JSON: %v: %s\n", err, sc.Text())
-			os.Exit(3)
+		if shards > len(ops)/100 {
+			shards = len(ops) / 100
 		}
-		res = append(res, j)
 	}
-	if len(res) != len(ops) {
-		fmt.Fprintf(os.Stderr, "driver answered %d lines for %d ops\n", len(res), len(ops))
-		os.Exit(3)
+	res := make([]J, len(ops))
+	var wg sync.WaitGroup
+	for k := 0; k < shards; k++ {
+		lo, hi := k*len(ops)/shards, (k+1)*len(ops)/shards
+		wg.Add(1)
+		go func(lo, hi int) {
+			defer wg.Done()
+			var in bytes.Buffer
+			for _, op := range ops[lo:hi] {
+				b, err := json.Marshal(op)
+				if err != nil {
+					panic(err)
+				}
+				in.Write(b)
+				in.WriteByte('\n')
+			}
+			cmd := exec.Command(c.Driver)
+			cmd.Stdin = &in
+			var out bytes.Buffer
+			cmd.Stdout = &out
+			cmd.Stderr = os.Stderr
+			if err := cmd.Run(); err != nil {
+				fmt.Fprintf(os.Stderr, "driver failed: %v\n", err)
+				os.Exit(3)
+			}
+			n := lo
+			sc := bufio.NewScanner(&out)
+			sc.Buffer(make([]byte, 1<<20), 1<<28)
+			for sc.Scan() {
+				var j J
+				if err := json.Unmarshal(sc.Bytes(), &j); err != nil {
+					fmt.Fprintf(os.Stderr, "driver output not JSON: %v: %s\n", err, sc.Text())
+					os.Exit(3)
+				}
+				if n < hi {
+					res[n] = j
+				}
+				n++
+			}
+			if n != hi {
+				fmt.Fprintf(os.Stderr, "driver answered %d lines for %d ops\n", n-lo, hi-lo)
+				os.Exit(3)
+			}
+		}(lo, hi)
 	}
+	wg.Wait()
 	c.LeanOps += len(ops)
 	for i, r := range res {
 		if e, ok := r["driverError"]; ok {
